@@ -104,6 +104,8 @@ def run_group(repo, unit, g, variant_defs=(), tag=''):
            'failed': [], 'excluded': {}, 'canary': None, 'seconds': {}, 'detail': '', 'properties': g['properties']}
     src = os.path.join(unit['dir'], g['source'])
     defs = ['-D' + d for d in list(g['defines']) + list(variant_defs)]
+    if g.get('dfcc', True) is False:
+        defs.append('-DVHARNESS')
     t_all = time.time()
     if g.get('kind') == 'smt':
         return run_smt_lemma(unit, g, res, wd)
@@ -199,7 +201,17 @@ def run_group(repo, unit, g, variant_defs=(), tag=''):
                 continue
             below_variadic.add(f)
             todo.extend(edges.get(f, ()))
-    # 2. contract instrumentation
+    # 2. contract instrumentation  (groups with "dfcc": false check the same pre/post predicates through the entry's
+    #    assume(pre) / assert(post) — used where DFCC's write-set instrumentation exhausts memory on unwound chain loops;
+    #    such groups carry their frame as explicit postconditions and are always labelled bounded)
+    if g.get('dfcc', True) is False:
+        cmd = ['goto-instrument', '--drop-unused-functions', src_gb, 'b.gb']
+        rc, so, se, dt = sh(cmd, 300, cwd=wd)
+        res['cmd_goto_instrument'] = ' '.join(cmd) + '   (no contract instrumentation: assume/assert harness)'
+        if rc != 0:
+            res['detail'] = 'goto-instrument --drop-unused-functions failed: ' + (se + so)[-1500:]
+            return res
+        return run_cbmc_stage(repo, unit, g, res, wd, below_variadic, t_all, ['--function', g['entry']])
     cmd = ['goto-instrument', '--dfcc', g['entry']]
     if g.get('enforce'):
         cmd += ['--enforce-contract', g['enforce']]
@@ -220,6 +232,10 @@ def run_group(repo, unit, g, variant_defs=(), tag=''):
         if bad in so + se:
             res['detail'] = 'goto-instrument: ' + bad
             return res
+    return run_cbmc_stage(repo, unit, g, res, wd, below_variadic, t_all, [])
+
+
+def run_cbmc_stage(repo, unit, g, res, wd, below_variadic, t_all, extra_opts):
     # 2d. syntactic side condition (C09): the function's body touches the counter field only as the
     #     address argument of a uatomic_* call (a sequentially checked contract cannot see a split RMW
     #     made of plain accesses)
@@ -256,7 +272,7 @@ def run_group(repo, unit, g, variant_defs=(), tag=''):
     if g.get('unwindset'):
         opts += ['--unwindset', ','.join(g['unwindset'])]
     opts += ['--object-bits', str(g.get('object_bits', 10))]
-    opts += g.get('cbmc_flags', [])
+    opts += g.get('cbmc_flags', []) + list(extra_opts)
     cmd = ['cbmc', 'b.gb'] + opts + ['--show-properties', '--json-ui']
     rc, so, se, dt = sh(cmd, 300, cwd=wd)
     props = []
@@ -332,6 +348,8 @@ def run_group(repo, unit, g, variant_defs=(), tag=''):
              'function': r.get('sourceLocation', {}).get('function', '')}
         if 'loop_invariant_step' in r['property'] or 'loop invariant' in o['description']:
             seen_loop = True
+        if CANARY_TAG in o['description'] and o['function'] not in (g['entry'], ''):
+            continue            # another entry's canary (not reachable from this entry)
         if CANARY_TAG in o['description']:
             res['canary'] = (r['status'] == 'FAILURE')
             continue
